@@ -179,6 +179,18 @@ def check(ctx, rep):
     dep = [norm(a) for a in own_nodes(gsp) if isinstance(a, ast.Attribute) and norm(a) in ('self.width', 'self.height', 'self._rect', 'self._active', 'self._absolute')]
     rep.ob('page.rebound-whatever-the-viewport', 'GraphicsViewPort.set_page does not depend on the clip rectangle', not dep,
            'set_page reads %s: switching the active page while a VIEW is set fails (AssertionError) after the display has recorded the new page' % dep, ctx.where(gsp))
+    # PCOPY copies page contents; the pages stay separate objects: copy_from stores INTO this page's own containers (slice
+    # stores) and rebinds none of them to the source's -- otherwise drawing on the active page also changes the copy
+    cf = ctx.fn('pcbasic/basic/display/buffers.py:VideoBuffer.copy_from')
+    n_cp = 0
+    for a in own_nodes(cf):
+        if isinstance(a, ast.Assign) and any(isinstance(x, ast.Name) and x.id in ('src', 'src_row') for x in ast.walk(a.value)):
+            n_cp += 1
+            t = a.targets[0]
+            scalar = isinstance(t, ast.Attribute) and t.attr in ('length', 'wrap')
+            rep.ob('pcopy.pages-stay-separate', 'copy_from: %s' % short(a, 50), isinstance(t, ast.Subscript) or scalar,
+                   'a container of this page is rebound to the source page`s object: from then on both pages share it', ctx.where(a))
+    rep.floor('pcopy.pages-stay-separate', n_cp, 5, 'copies from the source page')
     sp = ctx.fn(G + ':Graphics.set_page')
     st = [norm(s) for s in sp.body]
     rep.ob('page.rebound-to-active-page', 'active page = self._pages[apagenum]', 'self._apage = self._pages[apagenum]' in st and
@@ -235,6 +247,9 @@ def variants(ctx):
         return lambda tree: f(mu.find_def(tree, f_name))
 
     return [
+        mu.Variant('pcopy-shares-the-pixel-matrix', 'break', 'pcbasic/basic/display/buffers.py',
+                   lambda tree: mu.replace_stmt(mu.find_def(tree, 'VideoBuffer.copy_from'), mu.text_is('self._pixels[:, :] = src._pixels'), 'self._pixels = src._pixels'),
+                   expect='pcopy.pages-stay-separate'),
         mu.Variant('page-switch-asserts-viewport-size', 'break', G,
                    lambda tree: mu.replace_expr(mu.find_def(tree, 'GraphicsViewPort.set_page'), mu.text_is('self._max_width'), 'self.width'), expect='page.rebound-whatever-the-viewport'),
         Va('set-page-skips-unchanged-number', 'break', G,
